@@ -118,9 +118,19 @@ def is_integral(a):
     return bool(np.all(np.isfinite(a)) and np.all(a == np.round(a)) and np.all(np.abs(a) < 2 ** 52))
 
 
+SENTINEL = 987654321987       # stands for a value that is not an integer (NaN, inf, a fraction): no model result on small data equals it
+
+
+def _zi(v):
+    np = _impl().np
+    if np.isfinite(v) and v == np.round(v) and abs(v) < 2 ** 52:
+        return int(v)
+    return SENTINEL
+
+
 def zl(a):
     np = _impl().np
-    return clist([cz(int(v)) for v in np.asarray(a, dtype=np.float64).ravel()])
+    return clist([cz(_zi(v)) for v in np.asarray(a, dtype=np.float64).ravel()])
 
 
 def ozl(a):
@@ -128,7 +138,7 @@ def ozl(a):
     np = _impl().np
     out = []
     for v in np.asarray(a, dtype=np.float64).ravel():
-        out.append("None" if v == -np.inf else "Some %s" % cz(int(v)))
+        out.append("None" if v == -np.inf else "Some %s" % cz(_zi(v)))
     return clist(out)
 
 
@@ -140,10 +150,14 @@ def is_integral_or_neginf(a):
 
 
 def ql(a):
-    """float array of dyadic/integer values -> list Q (exact)"""
+    """float array of dyadic/integer values -> list Q (exact); non-finite entries (garbage read through a broken view) become a
+    value no model result can have, so that the case is reported as a mismatch instead of crashing the machinery"""
     np = _impl().np
     out = []
     for v in np.asarray(a, dtype=np.float64).ravel():
+        if not np.isfinite(v):
+            out.append("(1 # 3)")
+            continue
         fr = Fraction(float(v))
         out.append("(%s # %d)" % ("(%d)" % fr.numerator if fr.numerator < 0 else str(fr.numerator), fr.denominator))
     return clist(out)
